@@ -117,6 +117,24 @@ pub fn plan(prop: &str, tier: &str) -> Option<Plan> {
                 if tier != "quick" && matches!(prop, "C04" | "C05" | "C09" | "C10") && f.contains("digraph") {
                     jobs.extend(sharded(prop, "gsweep", f, tier, json!({"n": 4, "max_l": 5, "val_range": 0}), 32));
                 }
+                // large structured families (thresholds such as inline capacities of 8 / 16 / 32 elements)
+                if matches!(prop, "C04" | "C05" | "C06" | "C07" | "C08" | "C09" | "C10") {
+                    let (nmax, sh) = if tier == "quick" { (20, 8) } else { (40, 16) };
+                    jobs.extend(sharded(prop, "gsweep", f, tier, json!({"n": 0, "max_l": 0, "large": nmax}), sh));
+                }
+                // larger graphs up to renaming of the nodes (value-independent kinds only: bfs, dfs, orderings)
+                if matches!(prop, "C04" | "C05" | "C09" | "C10") {
+                    let directed = f.contains("digraph");
+                    let iso: Vec<(usize, usize, usize)> = match (tier == "quick", directed) {
+                        (true, true) => vec![(5, if prop == "C10" { 4 } else { 5 }, 16)],
+                        (true, false) => vec![(5, 4, 8)],
+                        (false, true) => vec![(6, 5, 32), (7, 5, 32), (5, 6, 48)],
+                        (false, false) => vec![(6, 4, 16), (5, 5, 48)],
+                    };
+                    for (n, l, sh) in iso {
+                        jobs.extend(sharded(prop, "gsweep", f, tier, json!({"n": n, "max_l": l, "val_range": 0, "iso": true}), sh));
+                    }
+                }
                 if prop == "C06" {
                     jobs.push(job(prop, "gsweep", f, tier, json!({"cmp": true})));
                 }
